@@ -5,14 +5,18 @@ full segment up to megabytes, including receiver-side bottlenecks; drops only by
 themselves. The main transfer is sent by the connecting socket or (every other scenario) by the
 accepted socket, the receiver-side bottleneck sits on the main receiver's incoming route. With
 finite capacities payload flows in one direction at a time (the reverse transfer starts long
-after the first one has ended); with unlimited queues both directions may carry bulk data at once."""
+after the first one has ended); with unlimited queues both directions may carry bulk data at once.
+A small extra share (`generate`, own random stream) puts a scripted delayer (`hop … delayer`) behind the
+first queue of the main sender's outgoing route: some of its first 30 droppable packets are held for
+100 us .. 2 s and forwarded unchanged, so that segments overtake each other without any loss -- delays
+and reordering must not stall a transfer either."""
 import random
 
 BW = [0, 5000, 20000, 100000, 1000000, 50000000]
 LAT = [0, 1000, 1000000, 20000000, 500000000]
 
 
-def scenario(rng, sid, tier, force_total=None):
+def scenario(rng, sid, tier, force_total=None, delay_rng=None):
     mtu = rng.choice([1475, 1475, 500, 100, 3000])
     seg = mtu + 40
     unlimited = rng.random() < 0.2
@@ -44,6 +48,19 @@ def scenario(rng, sid, tier, force_total=None):
     o1 = hops("c", rng.choice([1, 1, 2]), False); i1 = hops("d", rng.choice([0, 1] if swap else [0, 1, 1]), rx_bottleneck and not swap)
     net = hops("n", rng.choice([0, 1]), False)
     lines += ["hop p0 probe", "hop p1 probe"]
+    if delay_rng is not None:
+        # (drawn from a stream of its own: everything else of the scenario is what `rng` alone makes it)
+        dr = delay_rng
+        ords = sorted(dr.sample(range(30), dr.choice([1, 2, 4, 8])))
+        if dr.random() < 0.5:
+            a = dr.randrange(2, 24); ords = sorted(set(ords + list(range(a, a + dr.choice([2, 3, 5])))))
+        step = dr.choice([100, 1000000, 30000000, 400000000])
+        if dr.random() < 0.5: tbl = [(o, step * (len(ords) - i)) for i, o in enumerate(ords)]     # released in reverse order
+        else: tbl = [(o, dr.choice([100, 200000, 5000000, 60000000, 700000000, 2000000000])) for o in ords]
+        lines.append("hop y0 delayer delay=%s" % ",".join("%d:%d" % x for x in tbl))
+        lines.append("hop py probe")          # what leaves the delayer, in the order it leaves
+        wo = o1 if swap else o0
+        wo[1:1] = ["y0", "py"]; capof["y0"] = 0; capof["py"] = 0
     lines.append("route out 10.0.0.1 p0 %s" % " ".join(o0))
     lines.append("route out 10.0.0.2 p1 %s" % " ".join(o1))
     if i0: lines.append("route in 10.0.0.1 %s" % " ".join(i0))
@@ -138,4 +155,7 @@ def generate(seed, tier):
     if tier == "quick":
         # the sub-segment transfers, once each
         out[0] = scenario(rng, "g0", tier, force_total=1); out[1] = scenario(rng, "g1", tier, force_total=100)
+    # delays / reordering without loss on the main sender's route
+    rng2 = random.Random(seed * 86028121 % (2**31) + 77); dr = random.Random(seed * 32452843 % (2**31) + 78)
+    out += [scenario(rng2, "gy%d" % i, tier, delay_rng=dr) for i in range(40 if tier == "quick" else 600)]
     return out
